@@ -107,6 +107,9 @@ func L1Single() {
 	}
 
 	// the committed state, as seen by a fresh service on the same directory (restart)
+	if err := svc.Close(ctx); err != nil {
+		vsym.Assume(false)
+	}
 	svc2, err := standardrules.New(ctx, standardrules.WithStoragePath(dir))
 	if err != nil {
 		vsym.Assume(false)
@@ -118,6 +121,7 @@ func L1Single() {
 	S2, T2, _ := exported(ex, key)
 	vsym.Out("S2", S2)
 	vsym.Out("T2", T2)
+	_ = svc2.Close(ctx)
 	approved := res == rules.APPROVED
 	inH := vsym.Or(hist, approved)
 	vsym.Assert("A2-invariant-preserved", vsym.Implies(inH, vsym.And(S2 >= 0, T2 >= 0,
